@@ -176,3 +176,21 @@ Definition bank_sane (b : bank) : Prop :=
   (∀ a d, (0 ≤ getb b a d)%Z) ∧ (∀ d, bal_total b d = gets b d).
 (* genesis: fresh, with a consistent L2 bank *)
 Definition genesis (c : scfg) (s : sys) : Prop := fresh c s ∧ bank_sane (L2.bk (l2 s)).
+
+(* ---- the drain schedule ---- *)
+(* results (accepted?) of the steps of a history, in order *)
+Fixpoint sys_oks (c : scfg) (s : sys) (h : list smsg) : list bool :=
+  match h with
+  | [] => []
+  | m :: h' => (sys_step c s m).2 :: sys_oks c (sys_step c s m).1 h'
+  end.
+(* the claims of the listed L2 sequences against output idx committing to events (lo, hi] *)
+Definition claim_steps (e : L1.env) (sender : bytes) (idx lo hi v : N) (bh : bytes) (ms : list N) : list smsg :=
+  map (λ m, SClaim e sender idx m lo hi v bh) ms.
+(* a recorded withdrawal that carries value, names an L1-valid recipient and is not paid yet *)
+Definition claimable (c : scfg) (s : sys) (m : N) : Prop :=
+  ∃ w, find_w (l2 s) m = Some w ∧ m ∉ paid s ∧ (0 < L2.w_amt w)%Z ∧ is_Some (L1.resolve (c1 c) (L2.w_to w)).
+(* output idx of the bridge stores the honest root over the events (lo, hi] and is final at e *)
+Definition committed_final (c : scfg) (s : sys) (e : L1.env) (idx lo hi v : N) (bh : bytes) : Prop :=
+  ∃ x o, L1.configs (l1 s) !! bid c = Some x ∧ L1.outputs (l1 s) !! (bid c, idx) = Some o ∧
+         L1.o_root o = honest_root c (l2 s) lo hi v bh ∧ L1.is_final x e o = true.
